@@ -2,6 +2,7 @@
 from __future__ import annotations
 
 import ast
+import re
 from typing import Dict, List, Optional, Set, Tuple
 
 from ..core import Ctx
@@ -176,7 +177,10 @@ def coordinate_typing(ctx: Ctx):
                 bad = sorted(r for a in list(node.args) + [k.value for k in node.keywords] for r in _self_reads(a) if r[5:] in disp and r not in (ROW_ORD, COL_ORD) or (r in (ROW_ORD, COL_ORD) and f.startswith("SumSubtotals.")))
                 # the sanctioned conversion: order[display_idx] -> signed payload index
                 bad = [r for r in bad if not _only_as_order_lookup(node, r)]
-                where = f"{CP}::{cname}.{name} [{f}]"
+                # keyed by class, callee and the KIND of assembled operands (rows_/columns_ twins and a shared helper they are
+                # moved into are one construct): the known finding D10 stays recognised when the code is relocated
+                kinds = sorted({re.sub(r"^self\.(rows_|columns_|row_|column_)", "self.", r) for r in bad})
+                where = f"{CP}::{cname} [{f} <- assembled {', '.join(kinds)}]"
                 if bad:
                     ctx.violated(
                         "no-double-assembly",
